@@ -378,4 +378,35 @@ def c12(ctx):
     )
 
 
-PROPS = {"C06": c06, "C12": c12, "C07": c07, "C09": c09, "C09": c09, "C10": c10, "C11": c11, "C13": c13, "C14": c14, "C05": c05, "C20": c20, "C16": c16, "C17": c17, "C04": c04, "C03": c03}
+def c18(ctx):
+    prog = ctx.prog("dev")
+    only = {("QuantileExt", "quantile_axis_mut"), ("Quantile1dExt", "quantile_mut"), ("Quantile1dExt", "quantiles_mut"),
+            ("SummaryStatisticsExt", "weighted_std"), ("SummaryStatisticsExt", "weighted_std_axis"),
+            ("SummaryStatisticsExt", "weighted_mean_axis"), ("SummaryStatisticsExt", "kurtosis"), ("SummaryStatisticsExt", "skewness")}
+    n, e = RG.rule_r6(ctx, prog, only=only)
+    ctx.floor("R6", n, 8, "delegating routines in the decision table")
+    RT.rule_c18_quantiles(ctx, prog)
+    RS.rule_r12_callsites(ctx, prog)
+    RT.rule_c18_moments(ctx, prog)
+    RT.rule_c06(ctx, prog)
+    RT.rule_c07(ctx, prog)
+    roots = [b for b in all_roots(prog) if "quantile::" in b.key or "sort::" in b.key or b.key.startswith("sort::")]
+    pairs = RL.rule_r9(ctx, prog, roots)
+    ctx.floor("R9", len(pairs), 3, "zips in quantile/sort")
+    na = RL.rule_r8(ctx, prog, roots)
+    ctx.floor("R8", na, 8, "axis arguments in quantile/sort")
+    return dict(
+        level="other",
+        explanation="(R13) single forms are the bulk form with one request: quantile_axis_mut = quantiles_axis_mut(axis, [q], strategy) then "
+                    "index_axis_move(axis, 0); the 1-D wrappers are the axis forms at Axis(0); per-axis weighted sum/mean/variance/std map the "
+                    "operation-identical whole-array kernel over lanes with the caller's weights and ddof (kernel terms extracted from MIR); "
+                    "central_moment and central_moments compute the same shifted raw moments (canonical forms equal), the same correction "
+                    "term, coefficients from the prefix ..=k, the same Horner kernel, entries pushed for k = 2..=order after [one, zero], and "
+                    "the k-th raw moment is independent of the requested order; (R12) both callers of get_many_from_sorted_mut_unchecked pass "
+                    "a vector that is sorted then deduped with no later mutation; (R9) j-th output ↔ j-th q, indexes collected and looked up "
+                    "under the same predicates; (R8) axis passed through. Not decided: that bulk selection returns what single selection "
+                    "would for each index (C02).",
+    )
+
+
+PROPS = {"C06": c06, "C18": c18, "C12": c12, "C07": c07, "C09": c09, "C09": c09, "C10": c10, "C11": c11, "C13": c13, "C14": c14, "C05": c05, "C20": c20, "C16": c16, "C17": c17, "C04": c04, "C03": c03}
